@@ -38,18 +38,27 @@ class NOACC(Memory):
 MEM = {"DRAM": DRAM, "STACK": DRAM_STACK, "NOACC": NOACC}
 
 
-def template():
+def template(alias=False):
     @proc
     def leaf(d: [f32][8], s: [f32][8]):
         for i in seq(0, 8):
             d[i] = s[i]
 
-    @proc
-    def callee(x: f32[8], y: f32[8]):
-        t: f32[8]
-        for i in seq(0, 8):
-            t[i] = x[i] + y[i]
-        leaf(y[0:8], t[0:8])
+    if alias:
+        @proc
+        def callee(x: f32[8], y: f32[8]):
+            t: f32[8]
+            w = y[0:8]
+            for i in seq(0, 8):
+                t[i] = x[i] + w[i]
+            leaf(w, t[0:8])
+    else:
+        @proc
+        def callee(x: f32[8], y: f32[8]):
+            t: f32[8]
+            for i in seq(0, 8):
+                t[i] = x[i] + y[i]
+            leaf(y[0:8], t[0:8])
 
     @proc
     def caller(a: f32[8], b: f32[8]):
@@ -58,16 +67,16 @@ def template():
     return leaf, callee, caller
 
 
-_T = None
+_T = {}
 
 
 def instantiate(asg):
     """apply the assignment bottom-up with the real operators; calls are re-targeted with call_eqv-free
     reconstruction: each level is re-defined by replacing its callee through the public API"""
-    global _T
-    if _T is None:
-        _T = template()
-    leaf, callee, caller = _T
+    al = bool(asg.get("alias", False))
+    if al not in _T:
+        _T[al] = template(al)
+    leaf, callee, caller = _T[al]
     lf = leaf
     for u in ("d", "s"):
         lf = S.set_precision(lf, u, asg["prec"][u])
